@@ -200,6 +200,21 @@ def shrink_case(ctx, binr, names, case, ri, sig):
     return outcome(small)
 
 
+# what harness/runtime_dyn_h/Cargo.toml configures: the embedded script must name the units by these *names*
+# (`user-menu` is not its Rust identifier `user_menu`)
+EXPECTED_NAMES = {"ns_locales": ["en", "fr", "pt-BR"], "ns_ids": ["common", "home", "user-menu"], "flat_locales": ["en", "fr", "pt-BR"]}
+
+
+def get_names(ctx, binr):
+    (names,), _ = run_lines(binr, [{"op": "names"}])
+    if names != EXPECTED_NAMES:
+        report_violation(ctx, "embed:unit-named-differently-from-configuration", {
+            "case": {"op": "names"}, "expected_by_spec": EXPECTED_NAMES, "implementation": names,
+            "why": "`Locale::as_str` / `TranslationUnitId::to_str` (what the embedded script and the client use to name a unit) must be the "
+                   "configured locale and namespace names", "harness": "runtime_dyn_h names (generated by load_locales!)"})
+    return EXPECTED_NAMES
+
+
 def run(ctx):
     lean_check(ctx, "I18nVerif.Theorems.C17", "C17_")
     binr = cargo_build(ctx, "runtime_dyn_h")
@@ -207,7 +222,7 @@ def run(ctx):
         finish_broken(ctx, "harness does not build; nothing could be run")
         write_evidence(ctx, RULE)
         return
-    (names,), _ = run_lines(binr, [{"op": "names"}])
+    names = get_names(ctx, binr)
     rng = ctx.rng
     cases = list(CORPUS) + [gen_case(rng) for _ in range(ctx.budget(1500, 30000))]
     mism = 0
@@ -233,7 +248,7 @@ def replay(ctx, payload):
     binr = cargo_build(ctx, "runtime_dyn_h")
     if binr is None:
         raise HarnessError("harness does not build")
-    (names,), _ = run_lines(binr, [{"op": "names"}])
+    names = get_names(ctx, binr)
     check_cases(ctx, binr, names, [payload["case"]], count=False)
     if not ctx.violations:
         print("replay: the case no longer fails")
